@@ -310,7 +310,31 @@ def F11():
     return not bad, f"{len(bad)} of {len(m._ALLOWABLE_XS_TYPE_LIST)} admissible single-character type labels do not round trip, e.g. {bad[:3]} ... {bad[-2:]}"
 
 
-ALL = dict(F10=F10, F12=F12, F17=F17, F18=F18, F19=F19, F11=F11, F1=F1, F2=F2, F3=F3, F4=F4, F5=F5, F6=F6, F7=F7, F8=F8, F9=F9, F14=F14)
+def F13():
+    import os
+    from armi.nuclearDataIO.cccc import isotxs
+    from armi.nuclearDataIO import xsLibraries
+    from armi.tests import ISOAA_PATH
+
+    import armi.nuclearDataIO as ndio
+
+    fx = os.path.join(os.path.dirname(ndio.__file__), "tests", "fixtures")
+    aa, ab = os.path.join(fx, "mc2v3-AA.isotxs"), os.path.join(fx, "mc2v3-AB.isotxs")
+    target = isotxs.readBinary(aa)
+    other = xsLibraries.IsotxsLibrary()
+    other.merge(isotxs.readBinary(ab))  # new nuclides first
+    other.merge(isotxs.readBinary(aa))  # then nuclides that conflict with the target
+    before = list(target.nuclideLabels)
+    try:
+        target.merge(other)
+        return None, "conflicting merge was not rejected"
+    except Exception as e:
+        err = type(e).__name__
+    after = list(target.nuclideLabels)
+    return before == after, f"merge rejected ({err}) but the target library changed: {len(before)} -> {len(after)} nuclides (those merged before the conflict was found stay)"
+
+
+ALL = dict(F10=F10, F12=F12, F17=F17, F18=F18, F19=F19, F11=F11, F13=F13, F1=F1, F2=F2, F3=F3, F4=F4, F5=F5, F6=F6, F7=F7, F8=F8, F9=F9, F14=F14)
 
 if __name__ == "__main__":
     sys.path.insert(0, os.getcwd())
